@@ -18,7 +18,7 @@ CLAUSES = {
             "nested_entity_from_other_module", "array_is_not_a_homogeneous_tuple",
             "nullable_type_without_wire_null", "nullable_array_item_without_wire_null",
             "default_does_not_inhabit_type", "tag_is_not_a_non_negative_integer",
-            "tag_on_non_flexible_version", "tagged_field_without_resolvable_default",
+            "tag_on_non_flexible_version", "tagged_field_without_resolvable_default", "resolved_tagged_default_does_not_inhabit_type",
             "nullable_tagged_field_with_non_null_default", "array_element_may_encode_to_zero_bytes",
             "duplicate_tag", "duplicate_field_name", "reader_or_writer_cannot_be_derived",
             "flexibility_flag_is_not_a_boolean", "unknown_entity_type"},
